@@ -128,16 +128,29 @@ def check(chk):
               'cache keyed by (keyspace, type name)', 'UDT cache key changed')
     # parse
     pa = mod.func('parse_casstype_args')
-    ints = [n for n in body_walk(pa) if isinstance(n, ast.Call) and isinstance(n.func, ast.Name) and n.func.id == 'int']
-    g = CFG(pa)
-    fl = Flow(g, 0, lambda n, c: c)
+    # the conversion may sit in parse_casstype_args itself or in a module-level helper it calls
+    scopes_ = [pa]
+    for c_ in body_walk(pa):
+        if isinstance(c_, ast.Call) and isinstance(c_.func, ast.Name) and mod.has(c_.func.id) and isinstance(mod.get(c_.func.id), ast.FunctionDef) \
+                and c_.func.id not in ('lookup_casstype_simple', 'lookup_casstype') and mod.get(c_.func.id) not in scopes_:
+            scopes_.append(mod.get(c_.func.id))
+    ints = []
     ok = True
-    for i in ints:
-        nd = [n for n in g.stmt_nodes() if n.kind == 'stmt' and any(x is i for x in ast.walk(n.ast))]
-        for n in nd:
-            for fa, _ in fl.at(n):
-                if not any('VectorType' in k and p for k, p in fa.items):
-                    ok = False
+    for fn_ in scopes_:
+        its = [n for n in body_walk(fn_) if isinstance(n, ast.Call) and isinstance(n.func, ast.Name) and n.func.id == 'int']
+        if not its:
+            continue
+        ints.extend(its)
+        g = CFG(fn_)
+        fl = Flow(g, 0, lambda n, c: c)
+        for i in its:
+            nd = [n for n in g.stmt_nodes() if n.kind in ('stmt', 'return') and any(x is i for x in ast.walk(n.ast))]
+            if not nd:
+                ok = False
+            for n in nd:
+                for fa, _ in fl.at(n):
+                    if not any('VectorType' in k and p for k, p in fa.items):
+                        ok = False
     chk.judge(ok and bool(ints), 'C28.parse', pa, 'a token is read as a number only as a parameter of VectorType',
               'every all-digit token becomes an int: a UDT whose hex-encoded name has only digits (e.g. "address" = 61646472657373) fails to parse')
     # the type a parameter list belongs to: the same stack slot on both sides of the parenthesis
@@ -146,11 +159,22 @@ def check(chk):
         if isinstance(i, ast.UnaryOp) and isinstance(i.op, ast.USub) and isinstance(i.operand, ast.Constant):
             return -i.operand.value
         return i.value if isinstance(i, ast.Constant) else None
-    enc = [n for n in body_walk(pa) if isinstance(n, ast.Assign) and src(n.targets[0]) == 'enclosing']
+    # names under which the parse stack `args` is known: in parse_casstype_args itself, and as the parameter of a helper it is handed to
+    stack_names = {id(pa): set(['args'])}
+    for c_ in body_walk(pa):
+        if isinstance(c_, ast.Call) and isinstance(c_.func, ast.Name) and mod.has(c_.func.id) and mod.get(c_.func.id) in scopes_[1:]:
+            callee = mod.get(c_.func.id)
+            params_ = [a.arg for a in callee.args.args]
+            for k_, a_ in enumerate(c_.args):
+                if src(a_) == 'args' and k_ < len(params_):
+                    stack_names.setdefault(id(callee), set()).add(params_[k_])
+    enc = [(fn_, n) for fn_ in scopes_ for n in body_walk(fn_) if isinstance(n, ast.Assign) and src(n.targets[0]) == 'enclosing']
+    enc_names = stack_names.get(id(enc[0][0]), set()) if len(enc) == 1 else set()
+    enc = [n for _f, n in enc]
     appl = [n for n in body_walk(pa) if isinstance(n, ast.Assign) and isinstance(n.targets[0], ast.Subscript) and isinstance(n.value, ast.Call) and src(n.value.func).endswith('.apply_parameters')]
     ok = len(enc) == 1 and len(appl) == 1
     if ok:
-        subs = [x for x in ast.walk(enc[0].value) if isinstance(x, ast.Subscript) and isinstance(x.value, ast.Subscript) and isinstance(x.value.value, ast.Subscript) and src(x.value.value.value) == 'args']
+        subs = [x for x in ast.walk(enc[0].value) if isinstance(x, ast.Subscript) and isinstance(x.value, ast.Subscript) and isinstance(x.value.value, ast.Subscript) and src(x.value.value.value) in enc_names]
         closing = (last_index(appl[0].targets[0]), src(appl[0].targets[0].value), src(appl[0].value.func.value))
         ok = len(subs) == 1 and (last_index(subs[0].value.value), last_index(subs[0].value), last_index(subs[0])) == (-2, 0, -1) and closing[0] == -1 and closing[2] == '%s[-1]' % closing[1]
     chk.judge(ok, 'C28.parse', pa, 'the enclosing type of a parameter is the last type of the parent level - the same slot `)` applies the parameters to',
